@@ -460,7 +460,8 @@ pub fn run_case(
     let mut actions: Vec<Action> = vec![];
     let mut dead: Vec<bool> = vec![false; hosts.len()];
     let mut carry: Vec<Option<Carry>> = (0..hosts.len()).map(|_| None).collect();
-    let mut last_done: Vec<Option<Tri>> = vec![None; modes.len()];
+    // (done, fu_stuck, live_root_tasks) of the last prediction per model, for the final flush
+    let mut last_done: Vec<(Option<Tri>, bool, usize)> = vec![(None, false, 0); modes.len()];
     let caps: Vec<Caps> = hosts.iter().map(|h| h.host.caps()).collect();
     let all = |f: fn(&Caps) -> bool| caps.iter().all(f);
     let eff_cfg = RunCfg {
@@ -517,7 +518,7 @@ pub fn run_case(
                 slot.host.start(&p)
             }
         });
-        last_done[slot.model] = preds[slot.model].done;
+        last_done[slot.model] = (preds[slot.model].done, preds[slot.model].fu_stuck, preds[slot.model].live_root_tasks);
         if let Some((p, o)) = settle_partial(&mut carry[i], &preds[slot.model], obs) {
             let f = compare(&p, &o, &caps[i], slot.host.name(), 0);
             if !f.is_empty() {
@@ -686,7 +687,7 @@ pub fn run_case(
                 }
                 findings.extend(f);
             }
-            last_done[slot.model] = pred.done;
+            last_done[slot.model] = (pred.done, pred.fu_stuck, pred.live_root_tasks);
             if let Some((p, o)) = settle_partial(&mut carry[i], pred, obs) {
                 let f = compare(&p, &o, &caps[i], host.name(), step);
                 if !f.is_empty() {
@@ -725,7 +726,9 @@ pub fn run_case(
         let host = &mut slot.host;
         let obs = with_slot(i, || host.flush());
         let p = Pred {
-            done: last_done[slot.model],
+            done: last_done[slot.model].0,
+            fu_stuck: last_done[slot.model].1,
+            live_root_tasks: last_done[slot.model].2,
             ..Pred::default()
         };
         if let Some((p, o)) = settle_partial(&mut carry[i], &p, obs) {
